@@ -149,6 +149,19 @@ def oracle_naming(case):
                 fails.append({'what': f'{kind}: statistic attached to a population name changed', 'statistic': k,
                               'original': v, 'variant': got[k2], 'variant_spec': s2})
                 break
+    # ONE LineageConfig object (unsampled populations omitted) given to several Coalescents in turn - what a loop over demographies or an
+    # Inference callback does: every one of them must give the values of the configuration that lists all populations
+    if case.get('drop_unsampled') and any(c_ == 0 for _, c_ in spec['n_items']) and one_locus:
+        lc_obj = pg.LineageConfig({p: c_ for p, c_ in spec['n_items'] if c_ > 0})
+        for rep in range(3):
+            co = build.coalescent(spec, n=lc_obj)
+            x = [co.tree_height.mean, co.total_branch_length.mean] + [co.tree_height.demes[p].mean for p in pops]
+            y = [base['th.mean'], base['tbl.mean']] + [base[f'th.demes[{p}].mean'] for p in pops]
+            n += 1
+            if not relv(x, y, 1e-9):
+                fails.append({'what': f'one LineageConfig object (unsampled populations omitted) reused for Coalescent number {rep + 1}: statistics differ from those of the full listing',
+                              'reused': x, 'full_listing': y, 'spec': spec})
+                break
     # the object handed on as a copy (what a worker process or a saved file receives) after ONE statistic has been computed:
     # statistics not yet computed must still be attached to the right population names
     for kind, s2, mapping in [('original', spec, {p: p for p in pops})] + variants[:1]:
@@ -188,7 +201,46 @@ def scale_spec(spec, c):
     return s
 
 
+def _exp_growth_coal(kind, fN, c, n=4):
+    """exponentially growing population (discretised trajectory) whose growth started 2.05 base time units ago - deliberately off the
+    discretisation grid - expressed in time units c times the base unit (sizes multiplied by fN so that the time scale is multiplied by c)"""
+    model = {'kingman': lambda: pg.StandardCoalescent(), 'beta': lambda: pg.BetaCoalescent(alpha=1.5),
+             'dirac': lambda: pg.DiracCoalescent(psi=0.5, c=1)}[kind]()
+    return pg.Coalescent(n=n, model=model, parallelize=False, demography=pg.Demography(events=[
+        pg.ExponentialPopSizeChanges(initial_size={'pop_0': 8 * fN}, growth_rate=0.5 / c, start_time=0, end_time=2.05 * c, step_size=0.1 * c)]))
+
+
+def oracle_scaling_exp(case):
+    """the rescaling law on a DISCRETISED demography (exponential growth): change times, step size and time scale times c, growth
+    rate divided by c"""
+    fails, n = [], 0
+    kind, c = case['exp_growth'], case['c']
+    fN = {'kingman': c, 'beta': c ** (1.0 / 0.5), 'dirac': math.sqrt(c)}[kind]
+    h = build.capture()
+    a, b = _exp_growth_coal(kind, 1.0, 1.0), _exp_growth_coal(kind, fN, c)
+    ts = np.array([0.5, 1.0, 2.0, 4.0, 8.0])
+    pairs = {'tree_height.mean': (a.tree_height.mean * c, b.tree_height.mean),
+             'tree_height.var': (a.tree_height.var * c * c, b.tree_height.var),
+             'total_branch_length.mean': (a.total_branch_length.mean * c, b.total_branch_length.mean),
+             'total_branch_length.m2': (a.total_branch_length.m2 * c * c, b.total_branch_length.m2)}
+    ca, cb = a.tree_height.cdf(ts), b.tree_height.cdf(ts * c)
+    if noisy(h):
+        return fails, 0, {'skipped': 'warning logged', 'warnings': h.kinds}
+    for key, (x, y) in pairs.items():
+        n += 1
+        if not rel(x, y, 1e-9):
+            fails.append({'what': 'discretised (exponential growth) demography: statistic does not scale with the time unit', 'statistic': key,
+                          'model': kind, 'c': c, 'expected': x, 'rescaled': y})
+    n += 1
+    if not relv(ca, cb, 1e-9, 1e-12):
+        fails.append({'what': 'discretised (exponential growth) demography: cdf(c t) of the rescaled model differs from cdf(t)', 'model': kind, 'c': c,
+                      'original': ca.tolist(), 'rescaled': cb.tolist()})
+    return fails, n, {'exp_growth': kind, 'c': c}
+
+
 def oracle_scaling(case):
+    if case.get('exp_growth'):
+        return oracle_scaling_exp(case)
     fails, n = [], 0
     spec, c = case['spec'], case['c']
     h = build.capture()
@@ -403,6 +455,30 @@ def oracle_accumulation(case):
     if not warned and not (p >= 1 - 1e-12 and rel(mean_default, far, 1e-9)):
         fails.append({'what': 'default end time neither reaches the infinite-horizon value nor logs a warning',
                       't_max': tmax, 'cdf(t_max)': p, 'mean_default': mean_default, 'mean_64x_horizon': far, 'warnings': h2.kinds})
+    # the same default on an object that was FIRST asked for time-dependent quantities reaching beyond its last change point (a moment
+    # with an explicit end time, an accumulation curve, the distribution function): the default horizon is searched afterwards and must
+    # be that of the whole demography, as for a fresh object
+    bs3 = sorted({float(t) for dd in (spec.get('pop_sizes') or {}).values() if isinstance(dd, dict) for t in dd} |
+                 {float(t) for dd in (spec.get('migration_rates') or {}).values() if isinstance(dd, dict) for t in dd})
+    if len(bs3) > 1 and not warned:
+        beyond = bs3[-1] * 1.5 + 1.0
+        for how in ('moment', 'accumulate', 'cdf'):
+            c3 = build.coalescent({k: v for k, v in spec.items() if k != 'end_time'})
+            h3 = build.capture()
+            if how == 'moment':
+                c3.tree_height.moment(1, end_time=beyond)
+            elif how == 'accumulate':
+                c3.total_branch_length.accumulate(1, [beyond / 2, beyond])
+            else:
+                c3.tree_height.cdf(np.array([beyond]))
+            m3, t3 = c3.tree_height.mean, c3.tree_height.t_max
+            if 'horizon' in h3.kinds:
+                continue
+            n += 1
+            if not (rel(m3, mean_default, 1e-9) and rel(t3, tmax, 1e-12)):
+                fails.append({'what': f'default horizon / mean asked after a {how} query beyond the last change point differs from that of a fresh object',
+                              'beyond': beyond, 'mean_after': m3, 'mean_fresh': mean_default, 't_max_after': t3, 't_max_fresh': tmax})
+                break
     return fails, n, {'t_max': tmax, 'warned': warned}
 
 
@@ -532,7 +608,26 @@ def locus_block(c, fails):
     hs = [c.tree_height.loci[l].mean for l in (0, 1)]
     if c.tree_height.mean < max(hs) * (1 - 1e-9):
         fails.append({'what': 'tree height (max over loci) is below the height of one locus', 'loci': hs, 'joint': c.tree_height.mean})
-    return 2
+    # the covariance MATRIX across loci: its entries are the pairwise covariances, its diagonal the per-locus variances, and for the
+    # (additive) total branch length its entries sum to the variance
+    cnt = 2
+    for name, d in (('total_branch_length', c.total_branch_length), ('tree_height', c.tree_height)):
+        cov = np.array(d.loci.cov, dtype=float)
+        for i_, j_ in itertools.product((0, 1), repeat=2):
+            cnt += 1
+            if not rel(float(cov[j_, i_]), float(d.loci.get_cov(i_, j_)), 1e-8, 1e-10):
+                fails.append({'what': 'entry of the covariance matrix across loci is not the covariance of the two loci', 'dist': name,
+                              'loci': [i_, j_], 'matrix': float(cov[j_, i_]), 'get_cov': float(d.loci.get_cov(i_, j_))})
+        for l in (0, 1):
+            cnt += 1
+            if not rel(float(cov[l, l]), float(d.loci[l].var), 1e-8, 1e-10):
+                fails.append({'what': 'diagonal of the covariance matrix across loci is not the variance of the locus', 'dist': name,
+                              'locus': l, 'matrix': float(cov[l, l]), 'var': float(d.loci[l].var)})
+        if name == 'total_branch_length':
+            cnt += 1
+            if not rel(float(cov.sum()), float(d.var), 1e-7, 1e-10):
+                fails.append({'what': 'between-locus covariances do not sum to the variance', 'dist': name, 'sum': float(cov.sum()), 'var': float(d.var)})
+    return cnt
 
 
 # ------------------------------------------------------------------------------------------ C13
@@ -641,6 +736,18 @@ def oracle_routes(case):
     checks.append(('Coalescent.moment explicit rewards', c.moment(2, (R.TreeHeightReward(), R.TreeHeightReward())), d.var, 1e-12))
     L = c.total_branch_length
     checks.append(('branch length via Coalescent.moment', c.moment(1, (R.TotalBranchLengthReward(),)), L.mean, 1e-12))
+    # odd and even higher central moments of ONE repeated reward (default rewards, explicit identical rewards, equivalent but non-identical
+    # reward tuples) against the binomial combination of the raw moments
+    for nm, dd, rw in (('tree height', d, R.TreeHeightReward), ('total branch length', L, R.TotalBranchLengthReward)):
+        m1_, m2_, m3_, m4_ = (dd.moment(k_, center=False) for k_ in (1, 2, 3, 4))
+        c3 = m3_ - 3 * m1_ * m2_ + 2 * m1_ ** 3
+        c4 = m4_ - 4 * m1_ * m3_ + 6 * m1_ ** 2 * m2_ - 3 * m1_ ** 4
+        sc3, sc4 = max(abs(m3_), abs(m1_ * m2_), abs(m1_) ** 3), max(abs(m4_), abs(m1_ * m3_), m1_ ** 2 * abs(m2_), m1_ ** 4)
+        checks.append((f'{nm}: third central moment moment(3) vs raw combination', dd.moment(3) / sc3, c3 / sc3, 1e-9))
+        checks.append((f'{nm}: third central moment Coalescent.moment(3, (r, r, r)) vs raw combination', c.moment(3, (rw(), rw(), rw())) / sc3, c3 / sc3, 1e-9))
+        checks.append((f'{nm}: third central moment with an equivalent reward tuple (r, r, r * unit)',
+                       c.moment(3, (rw(), rw(), R.CombinedReward([rw(), R.UnitReward()]))) / sc3, c3 / sc3, 1e-9))
+        checks.append((f'{nm}: fourth central moment moment(4) vs raw combination', dd.moment(4) / sc4, c4 / sc4, 1e-9))
     T = case['T']
     obj = build.coalescent(dict(spec, end_time=T))
     checks.append(('end time on object vs call', obj.tree_height.mean, d.moment(1, end_time=T), 1e-12))
